@@ -1,12 +1,14 @@
-"""C19 (first version: Kani kernels only)."""
+"""C19: the C interface - pointers valid until freed, strings equal to the Rust values, nothing leaked (Kani kernels over the exported functions)."""
 import obl_kani
 
 
 def run(c):
-    names = ['k_ffi_suggestion_full', 'k_ffi_suggestion_single', 'k_ffi_config']
-    if c.tier == "thorough":
-        names = names + THOROUGH
+    names = ['k_ffi_suggestion_full', 'k_ffi_suggestion_single', 'k_ffi_config', 'k_ffi_strings_match_and_are_reclaimed',
+             'k_ffi_single_strings_match_and_are_reclaimed']
     obl_kani.run(c, names)
-
-
-THOROUGH = []
+    obl_kani.obl_ffi_lifecycle_validation(c)
+    c.assume("CString::from_raw is stubbed by the same ownership transfer with the length found by a loop (Kani cannot call the foreign strlen); "
+             "the counting variant of the stub is how 'taken back exactly once' is observed; the Bijoy encoder is an injective tagging stub; "
+             "both stubs are validated against the real build by the native life cycles")
+    c.outside("call sequences over all 33 exported functions with a live context (the context functions need Data::new / file I/O, beyond CBMC's reach here): "
+              "only the Suggestion / Config / string functions are decided by the solver; the context functions are exercised by the native life cycles only")
